@@ -1,7 +1,12 @@
 """C15 — arena-model property (see DESIGN.md §7 C15); theorems in lean/BumpProof/Props/C15.lean"""
 from engines.arena_prop import run_arena_property
+from engines.coll import run_coll, finish_coll_obligation
 
 def run(ctx):
+    # an exclusive-borrow collection (MutBumpVec / MutBumpVecRev) yields exactly the elements that were pushed, also when
+    # filling had to continue in a bigger chunk: growth-heavy traces next to std::vec::Vec, replayed on the collection model
+    run_coll(ctx, 300 if ctx.quick() else 8000, 10, "mutgrow", oracle_props=["C15", "C08", "C06"], label="mutgrow(MutBumpVec / MutBumpVecRev across chunks)")
+    finish_coll_obligation(ctx)
     return run_arena_property(ctx, ["BumpProof.Props.C15", "BumpProof.Props.Hist2@C15"],
         runs_quick=[('prepared', 700, 100)],
         runs_thorough=[('prepared', 8000, 200)],
